@@ -27,7 +27,7 @@ m = {
     "notes": "All checks: ./check <ID> [--tier quick|thorough]; VERIF_SEED / VERIF_TIER honoured. Evidence: evidence/<ID>.json. Replays: replays/ (created at run time). See DESIGN.md.",
 }
 for pid in ALL:
-    if pid in P.PROPS:
+    if pid in P.PROPS and P.PROPS[pid].get('theorems'):
         s = P.PROPS[pid]
         m["checks"].append({
             "property_id": pid,
